@@ -65,7 +65,7 @@ for p in props:
             "evidence_file": f"/verif/evidence/{p}.json",
             "replay_cmd_template": "/verif/bin/biocheck -replay {path}",
             "engine": "biocheck",
-            "level_claimed": {"category": "other", "text": text, "design_ref": "DESIGN.md section " + ref},
+            "level_claimed": {"category": "other", "text": text, "design_ref": "DESIGN.md section " + ref + "; rules as built, floors, seeded-fault and false-alarm results: section 13.3-13.6"},
             "level_note": NOTE,
             "technique": "static analysis: " + tech,
         })
